@@ -317,6 +317,25 @@ func sharedOp(s *jsonapi.Schema, op string, p int) {
 		if !strings.Contains(string(out), "filter=own-"+id+"\"") {
 			panic("the self link carries another request's filter label: " + string(out))
 		}
+		// a collection of the request's own, marshaled twice; what the first call returned is read
+		// again after the second (the bytes are the caller's from the moment they are returned)
+		col := &jsonapi.Resources{}
+		for k := 0; k < 3; k++ {
+			rk := t1.New()
+			rk.Set("id", fmt.Sprintf("%s-%d", id, k))
+			rk.Set("a", "own-"+id)
+			col.Add(rk)
+		}
+		uc, err := jsonapi.NewURLFromRaw(s, "/t1?fields[t1]=a")
+		must(err)
+		first, err := jsonapi.MarshalDocument(&jsonapi.Document{Data: col}, uc)
+		must(err)
+		kept := string(first)
+		_, err = jsonapi.MarshalDocument(&jsonapi.Document{Data: col}, uc)
+		must(err)
+		if string(first) != kept || strings.Count(kept, "own-"+id) != 3 || !json.Valid(first) {
+			panic("the payload of a collection changed after it was returned, or holds another request's members")
+		}
 	case "GetType":
 		if s.GetType("t2").Name != "t2" || s.GetType("zz").Name != "" {
 			panic("GetType")
